@@ -111,6 +111,10 @@ def monitor_trace(tr):
             if out.get('clone') != 'ok':
                 viol.append(dict(prop='C20', i=rec['i'], sig=dict(kind='unpicklable', exc=out.get('exc')), msg='dill round-trip failed: %r' % (out,)))
             else:
+                if 'error' not in b and (b['mem'], b['arch'], b['swap'], b['stats']) != (a['mem'], a['arch'], a['swap'], a['stats']):
+                    what = [n_ for n_ in ('mem', 'arch', 'swap', 'stats') if b[n_] != a[n_]]
+                    viol.append(dict(prop='C20', i=rec['i'], sig=dict(kind='round-trip-changed-the-original', what=what[0]),
+                                     msg='pickling and restoring a copy changed the original: %s went from %.200r to %.200r' % (what[0], b[what[0]], a[what[0]])))
                 for fld, what in (('same_state', 'cache contents / statistics / archive'), ('same_cfg', 'configuration'), ('wrapped', '__wrapped__')):
                     if not out[fld]:
                         viol.append(dict(prop='C20', i=rec['i'], sig=dict(kind='copy-differs', field=fld),
